@@ -59,7 +59,7 @@ def make_variant(v):
         return d
     rng = random.Random(derive(20, "variant", v))
     ops = ["rename_keys", "rename_levels", "rename_bases", "leaf_only", "separator", "folders", "vocab", "digits",
-           "third_base", "third_config", "insert_level", "remove_level", "swap_vocab", "key_patterns", "projects"]
+           "third_base", "third_config", "insert_level", "remove_level", "swap_vocab", "key_patterns", "projects", "config_vocab"]
     chosen = [o for o in ops if rng.random() < 0.35] or [rng.choice(ops)]
     d["transformations"] = chosen
     if "rename_keys" in chosen:
@@ -125,6 +125,15 @@ def make_variant(v):
             d["default_config"] = "server"
     if "key_patterns" in chosen:
         d["use_key_patterns"] = True
+    if "config_vocab" in chosen:
+        # one path configuration with its own folder names and state vocabulary (still one-to-one): an archive
+        # laid out differently from the working disks
+        cname = sorted(d["configs"])[-1]
+        d["config_overrides"] = {cname: {
+            "states": {k: ("wip%d" % i if k != list(d["states"])[0] else "arch_w") for i, k in enumerate(d["states"])},
+            "folders": {b["name"]: "LIB_" + b["folder"][:3] for b in d["basetypes"]},
+            "fixed": "ARCHIVE",
+        }}
     return d
 
 
@@ -215,6 +224,11 @@ def emit(d, dst):
     proj_p, state_p = sid_patterns("path")
     sep = d["sep"]
     for cname, folder in d["configs"].items():
+        ov = (d.get("config_overrides") or {}).get(cname, {})
+        states = ov.get("states", d["states"])
+        state_p = _alts(states.values())
+        fixed = ov.get("fixed", d["fixed"])
+        bfolder = {b["name"]: ov.get("folders", {}).get(b["name"], b["folder"]) for b in d["basetypes"]}
         lines = [
             "from pathlib import Path",
             "project_root_path = Path(__file__).parent / 'data' / 'testing' / 'SPIL_PROJECTS' / %r / 'PROJECTS'" % folder,
@@ -222,7 +236,7 @@ def emit(d, dst):
             "path_templates = {",
         ]
         for b in d["basetypes"]:
-            base = "{@root}/" + ph(K["project"], proj_p) + "/" + d["fixed"] + "/" + ph(K["type"], _alts([b["folder"]]))
+            base = "{@root}/" + ph(K["project"], proj_p) + "/" + fixed + "/" + ph(K["type"], _alts([bfolder[b["name"]]]))
             lvph = [ph(x[0], _level_pattern(x, d)) for x in b["levels"]]
             folders = []
             for i, p in enumerate(lvph):
@@ -257,13 +271,13 @@ def emit(d, dst):
             "}",
             "path_templates = {k: v.replace('{@root}', _root) for k, v in path_templates.items()}",
             "key_patterns = {}",
-            "path_defaults = {%r: %r}" % (K["state"], list(d["states"].values())[0]),
+            "path_defaults = {%r: %r}" % (K["state"], list(states.values())[0]),
             "sidkeys_to_extrakeys = {}",
             "extrakeys_to_sidkeys = {}",
             "path_mapping = {",
             "    %r: %r," % (K["project"], {v: k for k, v in d["projects"].items()}),
-            "    %r: %r," % (K["type"], {b["folder"]: b["code"] for b in d["basetypes"]}),
-            "    %r: %r," % (K["state"], {v: k for k, v in d["states"].items()}),
+            "    %r: %r," % (K["type"], {bfolder[b["name"]]: b["code"] for b in d["basetypes"]}),
+            "    %r: %r," % (K["state"], {v: k for k, v in states.items()}),
             "}",
             "search_path_mapping = {}",
         ]
